@@ -805,6 +805,20 @@ int simw_pthread_mutex_unlock(pthread_mutex_t *m) { SHIM;
   }
   TS_REL(m);
   M.owner = -1;
+#ifdef SIM_PREEMPT
+  // the statements right after an unlock are where "publish, then finish initialising" slips live (seeded change C01-4): one unlock
+  // in four is followed by a preemption point within the next 1-6 instrumented memory accesses (a recorded choice like all others)
+  {
+    State &s = *S; const Sched &sc = s.plan->sched;
+    if (sc.preempt || sc.explicit_) {
+      uint32_t idx = s.nchoice++, v = 0;
+      if (sc.explicit_) { uint32_t x; if (dev_lookup(idx, &x)) v = x; }
+      else if (s.rng.below(4) == 0) v = 1 + (uint32_t)s.rng.below(6);
+      rec_choice(idx, v, 0);
+      if (v) s.preempt_countdown = v;
+    }
+  }
+#endif
   return 0;
 }
 int simw_pthread_cond_wait(pthread_cond_t *c, pthread_mutex_t *m) { SHIM;
